@@ -74,6 +74,18 @@ def shapes(tier, seed):
         for labs, node, p in templates.unary_sequences(X, LEAFCOLS, 3, "full", slice_hi=hi, labels=labels):
             for n in ((3,) if tier == "quick" else (0, 2, 3)):
                 add(node, p, {"X": n})
+    # the same leaf (one payload object) used in two branches: aliasing between branches must not be observable
+    SA, SD = ("sort", X, ((("ref", "a"), True),)), ("sort", X, ((("ref", "b"), False), (("ref", "a"), True)))
+    reuse = [("chain", X, SA), ("chain", SA, X), ("chain", SD, ("slice", X, 0, 2)), ("chain", ("slice", SA, 0, 2), ("slice", X, 0, 2)),
+             ("chain", ("dedup", X), SD), ("chain", ("mat", SA), X), ("chain", ("sel", X, ("gt", ("ref", "a"), ("lit", "$k0"))), SD),
+             ("chain", SD, ("sort", X, ((("ref", "a"), False),)))]
+    for node in reuse:
+        p = templates.P()
+        if "$k0" in repr(node):
+            p.params["$k0"] = [None, None]
+        for n in (2, 3):
+            add(node, p, {"X": n})
+            add(node, p, {"X": n}, decl="loose")
     # non-key column with the documented functional dependency
     V = ("leaf", "V")
     for labs, node, p in templates.unary_sequences(V, LEAFCOLS, 2, "std", slice_hi=hi,
